@@ -35,7 +35,7 @@ class C11(BaseCheck):
   REQUIRED_ANCHORS = ANCHORS
   REQUIRED_CLASSES = ('thriftmux', 'kafka', 'adv:duplicate-reply', 'adv:unknown-tag', 'adv:reserved-tag-1',
                       'adv:tag-0', 'adv:huge-tag', 'adv:bitflip-tag', 'error-frame-replies', 'kafka:timeouts', 'tagpool:exhausted', 'tagpool:get-after-refusal', 'direct:bare-messages', 'direct:expired-while-opening', 'direct:retry-from-reply-handler', 'direct:answered-after-expiry-in-queue', 'timeout-before-send', 'timeout-after-send', 're-open',
-                      'tag-reuse', 'yielding-log-handler', 'direct:reply-handler-yields', 'direct:answered-twice-handler-yields')
+                      'tag-reuse', 'yielding-log-handler', 'direct:reply-handler-yields', 'direct:answered-twice-handler-yields', 'replies-in-several-segments')
   ASSUMPTIONS = ('a tag counts as answered when the client has read the last byte of any R-frame carrying it '
                  '(known from the simulated socket\'s read offsets)',)
   QUICK_CASES = 720
@@ -479,6 +479,9 @@ class C11(BaseCheck):
     err_replies = rng.random() < 0.3
     if err_replies and plan_mode != 'fast':
       classes.add('error-frame-replies')
+    chunked = idx % 4 == 1 and plan_mode != 'fast'
+    if chunked:
+      classes.add('replies-in-several-segments')
 
     class Policy(servers.DefaultPolicy):
       def __call__(self, server, conn, req):
@@ -489,7 +492,11 @@ class C11(BaseCheck):
           # the peer answers the tag with an error frame (Rerr, or its legacy encoding, type 127)
           return {'delay': rng.choice([0.0005, 0.002, 0.01]), 'as': rng.choice(['rerr', 'bad_rerr'])}
         if plan_mode == 'reorder' or k < 0.7:
-          return {'delay': rng.choice([0.0005, 0.002, 0.01, 0.05]) * (0.3 + rng.random())}
+          act = {'delay': rng.choice([0.0005, 0.002, 0.01, 0.05]) * (0.3 + rng.random())}
+          if chunked and rng.random() < 0.5:
+            # the reply reaches the client in several segments (cut inside the header as well)
+            act['chunks'] = [(rng.randint(1, 9), rng.choice([0.0, 0.0005, 0.003])) for _ in range(rng.randint(1, 4))]
+          return act
         if k < 0.85:
           return {'delay': rng.choice([0.3, 1.5])}       # later than the short timeouts
         return {'drop': True}
